@@ -101,6 +101,8 @@ pub struct Opts {
     pub probe: bool,
     /// emphasise scoped variables: links between captured nodes, nested scopes `@a.link.gn`, inherited reads
     pub scoped_heavy: bool,
+    /// local names that begin with DSL keywords
+    pub keywordish_names: bool,
 }
 
 pub struct Program {
@@ -149,6 +151,12 @@ const REGEXES: &[(&str, usize)] = &[
 impl<'a> Gen<'a> {
     fn fresh(&mut self, base: &str) -> String {
         self.counter += 1;
+        if self.opts.keywordish_names && self.r.chance(1, 3) {
+            // identifiers that merely begin with a keyword (C07)
+            let kw = *self.r.pick(&["let", "var", "set", "node", "edge", "attr", "print", "scan", "if", "elif", "else", "for", "in", "some", "none",
+                "attribute", "global", "inherit", "true", "false", "null"]);
+            return format!("{}{}{}", kw, self.r.pick(&["_", "x", "thing", "-a", "1"]), self.counter);
+        }
         format!("{}{}", base, self.counter)
     }
 
